@@ -1,6 +1,7 @@
 #!/bin/bash
 # Re-run every archived seed against the checks recorded in its meta.json (tests skipped): regression of detection.
 cd /verif
+rm -rf /verif/seeded/_base   # violation keys of unpatched base commits depend on the checks: recomputed
 run_one() { sid=$1; d=/verif/seeded/$sid; checks=$(/venv/bin/python -c "import json;print(','.join(json.load(open('$d/meta.json'))['checks']))"); prop=${sid%%-*}; /venv/bin/python tools/seed.py $prop $d $sid --skip-tests --checks $checks > /tmp/reseed_$sid.log 2>&1; }
 export -f run_one
 ls seeded | grep -E '^C[0-9]+-m[0-9]+$' | xargs -P ${SEED_PAR:-4} -I{} bash -c 'run_one {}'
